@@ -691,6 +691,55 @@ func verifyListViews(l at.List, vals []any, kinds []Kind, predSel int, resMode i
 			}
 		}
 	}
+	// typed variants whose first callback turns the LAST element of that kind into another kind: it is no
+	// longer an element of kind X when its turn would come
+	for _, k := range []Kind{KInt, KString} {
+		if len(sub[k]) < 2 {
+			continue
+		}
+		lastIdx := -1
+		for i := range kinds {
+			if kinds[i] == k {
+				lastIdx = i
+			}
+		}
+		for variant := 0; variant < 3; variant++ {
+			l2 := at.NewList(l.Slice()...)
+			var seen []any
+			first := true
+			visit := func(x any) {
+				seen = append(seen, x)
+				if first {
+					first = false
+					l2.Replace(lastIdx, nil)
+				}
+			}
+			name := ""
+			switch {
+			case k == KInt && variant == 0:
+				name = "MapInts"
+				l2.MapInts(func(x int) any { visit(x); return nil })
+			case k == KInt && variant == 1:
+				name = "FilterInts"
+				l2.FilterInts(func(x int) bool { visit(x); return true })
+			case k == KInt:
+				name = "ForEachInt"
+				l2.ForEachInt(func(x int) { visit(x) })
+			case variant == 0:
+				name = "MapStrings"
+				l2.MapStrings(func(x string) any { visit(x); return nil })
+			case variant == 1:
+				name = "FilterStrings"
+				l2.FilterStrings(func(x string) bool { visit(x); return true })
+			default:
+				name = "ForEachString"
+				l2.ForEachString(func(x string) { visit(x) })
+			}
+			if err := idSame(name+" whose first callback replaced the last element of that kind by nil", seen, sub[k][:len(sub[k])-1]); err != nil {
+				return err
+			}
+		}
+	}
 	// the accumulator of the untyped Reduce is the caller's business: any Go value, handed through untouched
 	type tally struct{ n int }
 	if got, ok := l.Reduce(tally{}, func(acc any, x any) any { a := acc.(tally); a.n++; return a }).(tally); !ok || got.n != n {
@@ -918,6 +967,38 @@ func verifyObjectViews(o at.Object, vals map[string]any, byKind map[Kind]map[str
 	}
 	if err := checkMapped("object MapValues", o.MapValues(func(x any) any { return tagOf(x) }), vals); err != nil {
 		return err
+	}
+	// a callback that removes every other field: fields that are gone when their turn would come are not visited
+	if n >= 2 {
+		for variant, name := range []string{"ForEach", "ForEachValue", "Map", "MapValues"} {
+			o2 := at.NewObject()
+			for k, v := range vals {
+				o2.Set(k, v)
+			}
+			calls := 0
+			dropOthers := func() {
+				calls++
+				if calls == 1 {
+					ks := sortedKeys(o2)
+					// keep exactly one field: the one being visited is unknown to ForEachValue, so keep none but
+					// re-check through Count below
+					o2.Unset(ks...)
+				}
+			}
+			switch variant {
+			case 0:
+				o2.ForEach(func(string, any) { dropOthers() })
+			case 1:
+				o2.ForEachValue(func(any) { dropOthers() })
+			case 2:
+				o2.Map(func(string, any) any { dropOthers(); return nil })
+			default:
+				o2.MapValues(func(any) any { dropOthers(); return nil })
+			}
+			if calls != 1 {
+				return errf("object %s whose first callback unset every field made %d calls for an object of %d fields (fields that no longer exist must not be visited)", name, calls, n)
+			}
+		}
 	}
 	if resMode > 0 {
 		for pass, got := range []at.Object{o.Map(func(k string, x any) any { return mapResult(resMode, x) }), o.MapValues(func(x any) any { return mapResult(resMode, x) })} {
